@@ -861,7 +861,30 @@ def rule_r8(ctx) -> List[R.Inst]:
     fn = _fn(ctx)
     file = M.mods[fn.mod].rel
     insts = []
-    for lp in (n for n in ast.walk(fn.node) if isinstance(n, ast.For)):
+    # the pinned tree takes one slot per step (nothing to check): the rule carries a positive and a negative example of its own
+    ex = ast.parse("def bad(S, cur, n):\n    for i, s in enumerate(S[cur:n]):\n        use(s)\n    cur += n\n"
+                   "def good(S, cur, n):\n    for i, s in enumerate(S[cur:cur + n]):\n        use(s)\n    cur += n\n")
+    got = [[st for st, _k, _m in _slot_slices(f_)] for f_ in ex.body]
+    if got != [["viol"], ["ok"]]:
+        return [R.undec(rid, "slot-slice:self-example", file, 0, f"the rule no longer tells its own examples apart: {got}")]
+    insts.append(R.ok(rid, "slot-slice:self-example", file, 0, idiom="S[cur:n] followed by cur += n recognised, S[cur:cur + n] accepted"))
+    for st_, key, msg in _slot_slices(fn.node):
+        node_line = msg[0]
+        if st_ == "ok":
+            insts.append(R.ok(rid, key, file, node_line, idiom=msg[1]))
+        elif st_ == "viol":
+            insts.append(R.viol(rid, key, file, node_line, msg[1], construct=msg[2]))
+        else:
+            insts.append(R.undec(rid, key, file, node_line, msg[1]))
+    if len(insts) == 1:
+        insts.append(R.ok(rid, "slot-slice:none", file, fn.node.lineno, idiom="no batch of slots is taken as a slice (one slot per step, cursor += 1)"))
+    return insts
+
+
+def _slot_slices(fn_node):
+    """[(status, key, (line, message[, construct]))] for every loop over a slice of a slot list whose cursor advances afterwards"""
+    out = []
+    for lp in (n for n in ast.walk(fn_node) if isinstance(n, ast.For)):
         it = lp.iter
         # enumerate(S[a:b]) / zip(S[a:b], ..) / S[a:b]
         cands = [it] + (list(it.args) if isinstance(it, ast.Call) and call_name(it) in ("enumerate", "zip") else [])
@@ -871,7 +894,7 @@ def rule_r8(ctx) -> List[R.Inst]:
             continue
         cur = sl.slice.lower.id
         # the advance that follows the loop in the same block
-        parent_blocks = [b for b in _blocks_of(fn.node) if lp in b]
+        parent_blocks = [b for b in _blocks_of(fn_node) if lp in b]
         adv = None
         for b in parent_blocks:
             for st in b[b.index(lp) + 1:]:
@@ -883,18 +906,16 @@ def rule_r8(ctx) -> List[R.Inst]:
         key = f"slot-slice:{cur}"
         width = sym.canon(sl.slice.upper) - sym.canon(sl.slice.lower)
         if width.same(sym.canon(adv.value)):
-            insts.append(R.ok(rid, key, file, lp.lineno, idiom=f"{unparse(sl)}: exactly the {unparse(adv.value)} slots from the cursor, which then advances by as many"))
+            out.append(("ok", key, (lp.lineno, f"{unparse(sl)}: exactly the {unparse(adv.value)} slots from the cursor, which then advances by as many")))
         elif width.symbols() <= sym.canon(adv.value).symbols() | {cur}:
-            insts.append(R.viol(rid, key, file, lp.lineno,
-                                f"the batch is '{unparse(sl)}' ({unparse(sl.slice.upper)} - {cur} slots) but the cursor advances by "
-                                f"'{unparse(adv.value)}': only for {cur} = 0 (the first volume group of a time) are these the same; later groups get "
-                                f"fewer notes than they are charged for and their sounds are dropped although notes are free",
-                                construct=f"{unparse(sl)} ; {unparse(adv)}"))
+            out.append(("viol", key, (lp.lineno,
+                                               f"the batch is '{unparse(sl)}' ({unparse(sl.slice.upper)} - {cur} slots) but the cursor advances by "
+                                               f"'{unparse(adv.value)}': only for {cur} = 0 (the first volume group of a time) are these the same; later groups get "
+                                               f"fewer notes than they are charged for and their sounds are dropped although notes are free",
+                                               f"{unparse(sl)} ; {unparse(adv)}")))
         else:
-            insts.append(R.undec(rid, key, file, lp.lineno, f"slice '{unparse(sl)}' against advance '{unparse(adv.value)}' not decided"))
-    if not insts:
-        insts.append(R.ok(rid, "slot-slice:none", file, fn.node.lineno, idiom="no batch of slots is taken as a slice (one slot per step, cursor += 1)"))
-    return insts
+            out.append(("undec", key, (lp.lineno, f"slice '{unparse(sl)}' against advance '{unparse(adv.value)}' not decided")))
+    return out
 
 
 def _blocks_of(node):
@@ -920,7 +941,7 @@ SPECS = [
     RuleSpec("C18.R4", rule_r4, 7, "A2", "sound columns of the result are cleared before slotting"),
     RuleSpec("C18.R6", rule_r6, 1, "A1", "source and target times are matched as stored (no one-sided transform)"),
     RuleSpec("C18.R7", rule_r7, 3, "A1", "sound kinds stay themselves through split -> count -> recombine (same bit constant, count = number of sounds)"),
-    RuleSpec("C18.R8", rule_r8, 1, "A7", "a batch of slots taken as a slice is exactly as long as the cursor's advance, from the cursor"),
+    RuleSpec("C18.R8", rule_r8, 2, "A7", "a batch of slots taken as a slice is exactly as long as the cursor's advance, from the cursor"),
     RuleSpec("C18.R5", rule_r5, 3, "A2", "bit tests on sound columns act on integer data for every history of the chart"),
     RuleSpec("C18.D", rule_dep, 1, "M0", "rules of the shared code (timing engine, list classes, stacker) that the operations of this property reach"),
 ]
